@@ -205,6 +205,68 @@ func vf01AddrStr(tok string) string {
 	return vf01Addr(tok).String()
 }
 
+// ---- registry: all three families ----------------------------------------------------------
+// reg <P> { <pf> <fam 4|n|d> <profile gw> <K> { <pool> <prio> <vrf> <net> <lo|plen> <hi> <gw> <E> {<a> <b>} } } ; ops
+
+func vf01BuildProfiles(f []string) (map[string]*ip.IPv4Profile, map[string]*ip.IPv6Profile, int) {
+	np, _ := strconv.Atoi(f[1])
+	p := 2
+	v4p := map[string]*ip.IPv4Profile{}
+	v6p := map[string]*ip.IPv6Profile{}
+	for i := 0; i < np; i++ {
+		pfname := "p" + f[p]
+		fam := f[p+1]
+		pgw := vf01AddrStr(f[p+2])
+		nk, _ := strconv.Atoi(f[p+3])
+		p += 4
+		if fam == "4" {
+			if v4p[pfname] == nil {
+				v4p[pfname] = &ip.IPv4Profile{Gateway: pgw}
+			}
+		} else if v6p[pfname] == nil {
+			v6p[pfname] = &ip.IPv6Profile{}
+		}
+		for j := 0; j < nk; j++ {
+			name := "n" + f[p]
+			prio, _ := strconv.Atoi(f[p+1])
+			vrf := vf01Name("v", f[p+2])
+			network := f[p+3]
+			if network == "bad" {
+				network = "not-a-prefix"
+			} else {
+				q := strings.Split(network, "/")
+				network = vf01Addr(q[0]).String() + "/" + q[1]
+			}
+			ne, _ := strconv.Atoi(f[p+7])
+			switch fam {
+			case "d":
+				pl, _ := strconv.Atoi(f[p+4])
+				v6p[pfname].PDPools = append(v6p[pfname].PDPools, ip.PDPool{Name: name, Network: network, PrefixLength: uint8(pl), VRF: vrf})
+			default:
+				lo, hi, gw := vf01AddrStr(f[p+4]), vf01AddrStr(f[p+5]), vf01AddrStr(f[p+6])
+				var excl []string
+				for e := 0; e < ne; e++ {
+					a, b := f[p+8+2*e], f[p+9+2*e]
+					if b == "-" {
+						excl = append(excl, " "+vf01AddrStr(a)+" ")
+					} else {
+						excl = append(excl, vf01AddrStr(a)+" - "+vf01AddrStr(b))
+					}
+				}
+				if fam == "4" {
+					v4p[pfname].Pools = append(v4p[pfname].Pools, ip.IPv4Pool{Name: name, Network: network, RangeStart: lo,
+						RangeEnd: hi, Gateway: gw, VRF: vrf, Priority: prio, Exclude: excl})
+				} else {
+					v6p[pfname].IANAPools = append(v6p[pfname].IANAPools, ip.IANAPool{Name: name, Network: network,
+						RangeStart: lo, RangeEnd: hi, Gateway: gw, VRF: vrf})
+				}
+			}
+			p += 8 + 2*ne
+		}
+	}
+	return v4p, v6p, p
+}
+
 // which allocator did a containment walk stop at?  (Go map order: the implementation's choice)
 type vf01Snap struct {
 	held bool
@@ -212,8 +274,27 @@ type vf01Snap struct {
 	n    int
 }
 
-func vf01Snapshot(allocs map[string]*PoolAllocator, ipb net.IP) map[string]vf01Snap {
+func vf01Snapshot(r *Registry, fam byte, arg string) map[string]vf01Snap {
 	out := map[string]vf01Snap{}
+	if fam == 'd' {
+		pfx := vf01Pfx(arg)
+		for k, a := range r.pdAllocators {
+			idx, ok := a.prefixToIndex(pfx)
+			if !ok {
+				continue
+			}
+			a.mu.Lock()
+			s, held := a.leases[idx]
+			out[k] = vf01Snap{held, s, len(a.leases)}
+			a.mu.Unlock()
+		}
+		return out
+	}
+	allocs := r.allocators
+	if fam == 'n' {
+		allocs = r.ianaAllocators
+	}
+	ipb := vf01IP(arg)
 	addr, ok := netip.AddrFromSlice(ipb)
 	if !ok {
 		return out
@@ -231,7 +312,8 @@ func vf01Snapshot(allocs map[string]*PoolAllocator, ipb net.IP) map[string]vf01S
 	return out
 }
 
-func vf01Which(before, after map[string]vf01Snap, sid string, err error) string {
+// release=false: Reserve walk; release=true: Release walk
+func vf01Which(before, after map[string]vf01Snap, sid string, err error, release bool) string {
 	keys := make([]string, 0, len(before))
 	for k := range before {
 		keys = append(keys, k)
@@ -244,6 +326,12 @@ func vf01Which(before, after map[string]vf01Snap, sid string, err error) string 
 	}
 	for _, k := range keys {
 		b := before[k]
+		if release {
+			if !b.held {
+				return k
+			}
+			continue
+		}
 		if err == nil && b.held && b.sid == sid {
 			return k
 		}
@@ -257,172 +345,193 @@ func vf01Which(before, after map[string]vf01Snap, sid string, err error) string 
 	return "?"
 }
 
+func vf01Key(t string) string { // <pf>/<pool>
+	q := strings.Split(t, "/")
+	return "p" + q[0] + "/n" + q[1]
+}
+
+func vf01Unkey(k string) string {
+	if k == "-" || k == "?" || k == "" {
+		return k
+	}
+	q := strings.Split(k, "/")
+	if len(q) != 2 || len(q[0]) < 2 || len(q[1]) < 2 {
+		return "?" + k
+	}
+	return q[0][1:] + "/" + q[1][1:]
+}
+
 func vf01Reg(f []string) string {
-	// reg4|reg6 <P> { <pf> <gw> <K> { <pool> <prio> <vrf> <net> <lo> <hi> <gw> <E> {<a> <b>} } } ; ops
-	v6 := f[0] == "reg6"
-	np, _ := strconv.Atoi(f[1])
-	p := 2
-	v4p := map[string]*ip.IPv4Profile{}
-	v6p := map[string]*ip.IPv6Profile{}
-	for i := 0; i < np; i++ {
-		pfname := "p" + f[p]
-		pgw := vf01AddrStr(f[p+1])
-		nk, _ := strconv.Atoi(f[p+2])
-		p += 3
-		pr4 := &ip.IPv4Profile{Gateway: pgw}
-		pr6 := &ip.IPv6Profile{}
-		for j := 0; j < nk; j++ {
-			name := "n" + f[p]
-			prio, _ := strconv.Atoi(f[p+1])
-			vrf := vf01Name("v", f[p+2])
-			network := f[p+3]
-			if network == "bad" {
-				network = "not-a-prefix"
-			} else {
-				q := strings.Split(network, "/")
-				network = vf01Addr(q[0]).String() + "/" + q[1]
-			}
-			lo, hi, gw := vf01AddrStr(f[p+4]), vf01AddrStr(f[p+5]), vf01AddrStr(f[p+6])
-			ne, _ := strconv.Atoi(f[p+7])
-			p += 8
-			var excl []string
-			for e := 0; e < ne; e++ {
-				a, b := f[p], f[p+1]
-				p += 2
-				if b == "-" {
-					excl = append(excl, " "+vf01AddrStr(a)+" ")
-				} else {
-					excl = append(excl, vf01AddrStr(a)+" - "+vf01AddrStr(b))
-				}
-			}
-			pr4.Pools = append(pr4.Pools, ip.IPv4Pool{Name: name, Network: network, RangeStart: lo, RangeEnd: hi,
-				Gateway: gw, VRF: vrf, Priority: prio, Exclude: excl})
-			pr6.IANAPools = append(pr6.IANAPools, ip.IANAPool{Name: name, Network: network, RangeStart: lo,
-				RangeEnd: hi, Gateway: gw, VRF: vrf})
+	v4p, v6p, p := vf01BuildProfiles(f)
+	r := newRegistry(v4p, v6p)
+	has := func(fam byte, k string) bool {
+		switch fam {
+		case '4':
+			_, ok := r.allocators[k]
+			return ok
+		case 'n':
+			_, ok := r.ianaAllocators[k]
+			return ok
 		}
-		if v6 {
-			v6p[pfname] = pr6
-		} else {
-			v4p[pfname] = pr4
-		}
-	}
-	var r *Registry
-	if v6 {
-		r = newRegistry(nil, v6p)
-	} else {
-		r = newRegistry(v4p, nil)
-	}
-	allocs := r.allocators
-	if v6 {
-		allocs = r.ianaAllocators
-	}
-	key := func(t string) string { // <pf>/<pool>
-		q := strings.Split(t, "/")
-		return "p" + q[0] + "/n" + q[1]
-	}
-	unkey := func(k string) string {
-		if k == "-" || k == "?" {
-			return k
-		}
-		q := strings.Split(k, "/")
-		return q[0][1:] + "/" + q[1][1:]
+		_, ok := r.pdAllocators[k]
+		return ok
 	}
 	var res []string
 	for _, op := range f[p+1:] {
-		arg := op[1:]
-		q := strings.Split(arg, ",")
+		if op[0] == 'D' {
+			r.SetAllocDirection(op[1:] == "1")
+			res = append(res, "ok")
+			continue
+		}
+		fam := op[1]
+		q := strings.Split(op[2:], ",")
 		switch op[0] {
-		case 'A': // A<sid>,<profile>,<override>,<vrf>
-			var got net.IP
-			var pool string
+		case 'A': // A<f><sid>,<profile>,<override>,<vrf>
+			pf, ov, vrf, sid := "p"+q[1], vf01Name("n", q[2]), vf01Name("v", q[3]), "s"+q[0]
+			var shown, pool string
 			var err error
-			if v6 {
-				got, pool, err = r.AllocateIANAFromProfile("p"+q[1], vf01Name("n", q[2]), vf01Name("v", q[3]), "s"+q[0])
-			} else {
-				got, pool, err = r.AllocateFromProfile("p"+q[1], vf01Name("n", q[2]), vf01Name("v", q[3]), "s"+q[0])
+			switch fam {
+			case '4':
+				var got net.IP
+				got, pool, err = r.AllocateFromProfile(pf, ov, vrf, sid)
+				shown = vf01ShowIP(got)
+			case 'n':
+				var got net.IP
+				got, pool, err = r.AllocateIANAFromProfile(pf, ov, vrf, sid)
+				shown = vf01ShowIP(got)
+			default:
+				var got *net.IPNet
+				got, pool, err = r.AllocatePDFromProfile(pf, ov, vrf, sid)
+				shown = vf01ShowPfx(got)
 			}
 			if err != nil {
 				res = append(res, vf01Err(err))
 			} else {
-				res = append(res, "a"+unkey(pool)+"="+vf01ShowIP(got))
+				res = append(res, "a"+vf01Unkey(pool)+"="+shown)
 			}
-		case 'L': // L<pf>/<pool>,<addr>
-			if v6 {
-				r.ReleaseIANA(key(q[0]), vf01IP(q[1]))
-			} else {
-				r.Release(key(q[0]), vf01IP(q[1]))
+		case 'L': // L<f><key>,<arg>
+			switch fam {
+			case '4':
+				r.Release(vf01Key(q[0]), vf01IP(q[1]))
+			case 'n':
+				r.ReleaseIANA(vf01Key(q[0]), vf01IP(q[1]))
+			default:
+				r.ReleasePD(vf01Key(q[0]), vf01Pfx(q[1]))
 			}
 			res = append(res, "ok")
-		case 'P', 'R': // P<sid>,<pf>/<pool>,<addr>   R<sid>,<addr>
+		case 'P', 'R': // P<f><sid>,<key>,<arg>   R<f><sid>,<arg>
 			var err error
-			var ipb net.IP
-			if op[0] == 'P' {
-				ipb = vf01IP(q[2])
-			} else {
-				ipb = vf01IP(q[1])
-			}
-			before := vf01Snapshot(allocs, ipb)
+			arg := q[len(q)-1]
+			sid := "s" + q[0]
+			before := vf01Snapshot(r, fam, arg)
 			direct := false
 			if op[0] == 'P' {
-				_, direct = allocs[key(q[1])]
-				if v6 {
-					err = r.ReserveIANAInPool(key(q[1]), ipb, "s"+q[0])
-				} else {
-					err = r.ReserveIPInPool(key(q[1]), ipb, "s"+q[0])
+				k := vf01Key(q[1])
+				direct = has(fam, k)
+				switch fam {
+				case '4':
+					err = r.ReserveIPInPool(k, vf01IP(arg), sid)
+				case 'n':
+					err = r.ReserveIANAInPool(k, vf01IP(arg), sid)
+				default:
+					err = r.ReservePDInPool(k, vf01Pfx(arg), sid)
 				}
-			} else if v6 {
-				err = r.ReserveIANA(ipb, "s"+q[0])
 			} else {
-				err = r.ReserveIP(ipb, "s"+q[0])
+				switch fam {
+				case '4':
+					err = r.ReserveIP(vf01IP(arg), sid)
+				case 'n':
+					err = r.ReserveIANA(vf01IP(arg), sid)
+				default:
+					err = r.ReservePD(vf01Pfx(arg), sid)
+				}
 			}
 			if direct {
 				res = append(res, vf01Err(err))
 			} else {
-				after := vf01Snapshot(allocs, ipb)
-				res = append(res, vf01Err(err)+"@"+unkey(vf01Which(before, after, "s"+q[0], err)))
+				after := vf01Snapshot(r, fam, arg)
+				res = append(res, vf01Err(err)+"@"+vf01Unkey(vf01Which(before, after, sid, err, false)))
 			}
-		case 'I':
-			if v6 {
-				r.ReleaseIANAByIP(vf01IP(arg))
+		case 'Q', 'I': // Q<f><key>,<arg> (Release*InPool)   I<f><arg> (ReleaseIP / ReleaseIANAByIP / ReleasePDByPrefix)
+			arg := q[len(q)-1]
+			before := vf01Snapshot(r, fam, arg)
+			walk := false
+			if op[0] == 'Q' {
+				k := vf01Key(q[0])
+				walk = !has(fam, k)
+				switch fam {
+				case '4':
+					r.ReleaseIPInPool(k, vf01IP(arg))
+				case 'n':
+					r.ReleaseIANAInPool(k, vf01IP(arg))
+				default:
+					r.ReleasePDInPool(k, vf01Pfx(arg))
+				}
 			} else {
-				r.ReleaseIP(vf01IP(arg))
+				switch fam {
+				case '4':
+					r.ReleaseIP(vf01IP(arg))
+				case 'n':
+					r.ReleaseIANAByIP(vf01IP(arg))
+				default:
+					walk = true
+					r.ReleasePDByPrefix(vf01Pfx(arg))
+				}
 			}
-			res = append(res, "ok")
-		case 'D':
-			r.SetAllocDirection(arg == "1")
-			res = append(res, "ok")
+			if walk {
+				after := vf01Snapshot(r, fam, arg)
+				res = append(res, "ok@"+vf01Unkey(vf01Which(before, after, "", nil, true)))
+			} else {
+				res = append(res, "ok")
+			}
 		case 'V':
-			if a, ok := allocs[key(arg)]; ok {
-				res = append(res, "n"+strconv.Itoa(a.Available()))
-			} else {
+			k := vf01Key(q[0])
+			switch {
+			case !has(fam, k):
 				res = append(res, "nopool")
+			case fam == '4':
+				res = append(res, "n"+strconv.Itoa(r.allocators[k].Available()))
+			case fam == 'n':
+				res = append(res, "n"+strconv.Itoa(r.ianaAllocators[k].Available()))
+			default:
+				a := r.pdAllocators[k]
+				a.mu.Lock()
+				res = append(res, "n"+strconv.Itoa(len(a.free)))
+				a.mu.Unlock()
 			}
-		case 'O': // O<profile>: GetProfilePools (v4) / profileIANAPools
+		case 'O':
 			var l []string
-			if v6 {
-				l = r.profileIANAPools["p"+arg]
-			} else {
-				l = r.GetProfilePools("p" + arg)
+			switch fam {
+			case '4':
+				l = r.GetProfilePools("p" + q[0])
+			case 'n':
+				l = r.profileIANAPools["p"+q[0]]
+			default:
+				l = r.profilePDPools["p"+q[0]]
 			}
 			s := "o"
 			for _, k := range l {
-				s += ":" + unkey(k)
+				s += ":" + vf01Unkey(k)
 			}
 			res = append(res, s)
 		default:
 			res = append(res, "badop")
 		}
 	}
-	// final: Available of every allocator, sorted by key
-	keys := make([]string, 0, len(allocs))
-	for k := range allocs {
-		keys = append(keys, unkey(k))
+	// final: free count of every allocator, sorted
+	var fin []string
+	for k, a := range r.allocators {
+		fin = append(fin, "4:"+vf01Unkey(k)+"="+strconv.Itoa(a.Available()))
 	}
-	sort.Strings(keys)
+	for k, a := range r.ianaAllocators {
+		fin = append(fin, "n:"+vf01Unkey(k)+"="+strconv.Itoa(a.Available()))
+	}
+	for k, a := range r.pdAllocators {
+		fin = append(fin, "d:"+vf01Unkey(k)+"="+strconv.Itoa(len(a.free)))
+	}
+	sort.Strings(fin)
 	res = append(res, "|")
-	for _, k := range keys {
-		res = append(res, k+"="+strconv.Itoa(allocs[key(k)].Available()))
-	}
+	res = append(res, fin...)
 	return strings.Join(res, " ")
 }
 
@@ -440,7 +549,7 @@ func vf01Case(line string) (out string) {
 			done <- vf01Pool(f)
 		case "pd":
 			done <- vf01PD(f)
-		case "reg4", "reg6":
+		case "reg":
 			done <- vf01Reg(f)
 		default:
 			done <- "badline"
